@@ -29,7 +29,12 @@ Apply(e) ==
     [] e.op = "scrypt" -> IF e.n >= 1 THEN V(ScryptKdf(e.pw, e.salt, e.logn, e.r, e.p, e.n)) ELSE P
     [] e.op = "argon2" ->
          \* parameters are 16-bit limb lists; refused: p = 0, p >= 2^24, t = 0, version not in {0x10, 0x13}
-         IF LimbsZero(e.p) \/ ~LimbsLt(e.p, 16777216) \/ LimbsZero(e.t) \/ e.version \notin {16, 19} THEN P
+         \* the builder is called in the order parallelism, memory, iterations, version: the first violated constraint names the error
+         \* variant (1 ParallelismZero, 2 ParallelismTooHigh, 3 IterationsZero, 4 UnknownVersion)
+         IF LimbsZero(e.p) THEN [k |-> "p", v |-> <<1>>]
+         ELSE IF ~LimbsLt(e.p, 16777216) THEN [k |-> "p", v |-> <<2>>]
+         ELSE IF LimbsZero(e.t) THEN [k |-> "p", v |-> <<3>>]
+         ELSE IF e.version \notin {16, 19} THEN [k |-> "p", v |-> <<4>>]
          ELSE IF Has(e, "params_only") THEN N
          ELSE V(Argon2(e.type, e.version, e.t[1], e.m[1], e.p[1], e.pw, e.salt, e.key, e.aad, e.n))
     [] e.op = "scrypt_params" -> IF ScryptLegal(e.logn, e.r, e.p) THEN N ELSE P
